@@ -1324,3 +1324,16 @@ package pfcp
 //@   loop for():
 //@     modifies chanstate(s.rcvCh), buf[_]
 //@     invariant [open] s != nil && s.conn != nil && s.rcvCh != nil && !closed(s.rcvCh)
+
+// Construction: a new server satisfies the precondition of its event loop.  A-DPEMPTY (entry assumption): the data
+// plane holds no rule when the server is created.  recoveryTime is written here and by no function under contract
+// (every handler's frame leaves it alone), so Heartbeat and Association Setup responses carry the same stamp.
+//@ func NewPfcpServer(cfg *factory.Config, driver forwarder.Driver) (s *PfcpServer)
+//@   requires cfg != nil && cfg.Pfcp != nil && driver != nil && cfg.Pfcp.MaxRetrans < 255
+//@   requires [A-DPEMPTY] (forall k RuleKey :: !(k in DP)) && (forall k RuleKey :: !(k in CREATED))
+//@   ensures [pre]   fresh(s) && srvPre(s)
+//@   ensures [cfg]   s.cfg == cfg && s.nodeID == cfg.Pfcp.NodeID && s.driver == driver && s.listen == sprintf("%s:%d", cfg.Pfcp.Addr, 8805)
+//@   ensures [chans] s.rcvCh != nil && s.srCh != nil && s.trToCh != nil && !closed(s.rcvCh) && !closed(s.srCh) && !closed(s.trToCh)
+//@   modifies nothing
+//@   reveal nodeInv lnodeWF allSessOK dpLive nodesWF linked registered
+//@   serves C06 C08 C20 C07
